@@ -111,6 +111,10 @@ def check(n_assignors=2, member_id_required=False, leader=False, rejoin_during_s
                 problems.append("JoinGroup #%d advertises %r, configured strategies are %r" % (i, adv, names))
             if granted:
                 problems.append("JoinGroup #%d sent after a JoinGroup reply with NoError (trace %r)" % (i, kinds))
+            first = not any(t.startswith("JoinGroup") for t in kinds[:i])
+            mid = getattr(r, "_member_id", None)
+            if member_id_required and not first and mid != "m-1":
+                problems.append("JoinGroup #%d after MEMBER_ID_REQUIRED carries member id %r, the broker handed out 'm-1'" % (i, mid))
             expects_grant = not (member_id_required and not any(t.startswith("JoinGroup") for t in kinds[:i]))
             granted = granted or expects_grant
         elif k.startswith("SyncGroup"):
